@@ -94,6 +94,12 @@ class C13(Prop):
                               ('FP_SDR(matrix swapped)', cv.FP_SDR, [np.matrix(f1).T, np.matrix(f2).T]),
                               ('FP_TNP', cv.FP_TNP, [np.matrix(f2).T, np.matrix(f1).T]),
                               ('TP_FP', cv.TP_FP, [np.array(T, dtype=float).copy(), np.array(P, dtype=float).copy()]),
+                              ('normal_SD', cv.normal_SD, [np.array(n1, dtype=float).copy()]),
+                              ('normal_SD(downward)', cv.normal_SD, [-np.array(n1, dtype=float).copy()]),
+                              ('normal_SD(matrix, downward)', cv.normal_SD, [np.matrix([-v for v in f1]).T]),
+                              ('normal_SD(1-d, downward)', cv.normal_SD, [-np.array(f1, dtype=float)]),
+                              ('FP_SDSD', cv.FP_SDSD, [np.array(n1, dtype=float).copy(), np.array(n2, dtype=float).copy()]),
+                              ('FP_SDSD(downward)', cv.FP_SDSD, [-np.array(n1, dtype=float).copy(), -np.array(n2, dtype=float).copy()]),
                               ('SDR_SDR', cv.SDR_SDR, [np.array([s, 1.0]), np.array([d, 0.5]), np.array([r, 0.3])]),
                               ('SDR_TNP', cv.SDR_TNP, [np.array([s, 1.0]), np.array([d, 0.5]), np.array([r, 0.3])])):
             before = [np.array(a, dtype=float).copy() for a in args]
